@@ -17,6 +17,8 @@ EbErrorType svt_block_on_mutex(EbHandle h) { __CPROVER_assert(__CPROVER_r_ok(h, 
 EbErrorType svt_release_mutex(EbHandle h) { __CPROVER_assert(__CPROVER_r_ok(h, 1), "unlock: live mutex"); return EB_ErrorNone; }
 EbErrorType svt_post_semaphore(EbHandle h) { __CPROVER_assert(__CPROVER_r_ok(h, 1), "post: live semaphore"); return EB_ErrorNone; }
 EbErrorType svt_block_on_semaphore(EbHandle h) { __CPROVER_assert(__CPROVER_r_ok(h, 1), "wait: live semaphore"); return EB_ErrorNone; }
+pthread_t pthread_self(void) { return 0; }
+int pthread_setschedparam(pthread_t t, int policy, const struct sched_param *p) { (void)t; (void)policy; (void)p; return 0; }
 int pthread_setaffinity_np(pthread_t t, size_t n, const cpu_set_t *s) { (void)t; (void)n; (void)s; return 0; }
 void svt_log(int level, const char *tag, const char *fmt, ...) { (void)level; (void)tag; (void)fmt; }
 void svt_print_alloc_fail(const char *file, int line) { (void)file; (void)line; }
